@@ -20,7 +20,7 @@ def make_data(r, n, style):
 
 
 def make_cases(tier, seed, wd):
-    n = 300 if tier == 'quick' else 3000
+    n = 500 if tier == 'quick' else 3000
     nbig = 6 if tier == 'quick' else 120
     cases, exps = [], []
     for i in range(n):
